@@ -238,19 +238,24 @@ static void out_qfile(const char *sub, unsigned long id) {
   unlink(path);
 }
 
-static void do_S(const files *F0, step *st, int nst) {
-  static unsigned long next_id = 1000;
-  int p2[2], p4[2], p5[2], p6[2];
+static int p2w, p4w;                     /* our write ends of the spawner report pipes (qmail-send's fd 2 / fd 4) */
+static int lrd[2] = { -1, -1 };          /* our read ends of the delivery command pipes (fd 1 / fd 3), conc > 0 only */
+
+/* fork the real main(); conc = what both spawners announce as their concurrency (0: nothing is ever delivered and
+ * fd 1 / fd 3 are /dev/null).  returns the pid, *started = the daemon reached its idle select() */
+static pid_t launch(const files *F0, int conc, int *started) {
+  int p1[2] = { -1, -1 }, p3[2] = { -1, -1 }, p2[2], p4[2], p5[2], p6[2];
   char path[4600];
   write_files(F0);
   if (pipe(p2) || pipe(p4) || pipe(p5) || pipe(p6)) { perror("pipe"); exit(2); }
+  if (conc && (pipe(p1) || pipe(p3))) { perror("pipe"); exit(2); }
   fflush(h_out);
   pid_t pid = fork();
   if (pid < 0) { perror("fork"); exit(2); }
   if (pid == 0) {
     snprintf(path, sizeof path, "%s/log", auto_qmail);
     int lg = open(path, O_WRONLY | O_CREAT | O_TRUNC, 0644), dn = open("/dev/null", O_RDWR);
-    int src[7] = { lg, dn, p2[0], dn, p4[0], p5[1], p6[0] }, hi[7];
+    int src[7] = { lg, conc ? p1[1] : dn, p2[0], conc ? p3[1] : dn, p4[0], p5[1], p6[0] }, hi[7];
     for (int i = 0; i < 7; i++) hi[i] = fcntl(src[i], F_DUPFD, 40);
     if (__sanitizer_set_report_path) { snprintf(path, sizeof path, "%s/asan", auto_qmail); __sanitizer_set_report_path(path); }
     for (int i = 0; i < 7; i++) dup2(hi[i], i);
@@ -261,23 +266,59 @@ static void do_S(const files *F0, step *st, int nst) {
     _exit(99);
   }
   close(p2[0]); close(p4[0]); close(p5[1]); close(p6[0]);
-  rd_clean = p5[0]; wr_clean = p6[1];
+  if (conc) { close(p1[1]); close(p3[1]); lrd[0] = p1[0]; lrd[1] = p3[0]; }
+  rd_clean = p5[0]; wr_clean = p6[1]; p2w = p2[1]; p4w = p4[1];
   signal(SIGPIPE, SIG_IGN);
-  char zero = 0;
-  int started = 1;
-  if (write(p2[1], &zero, 1) != 1 || write(p4[1], &zero, 1) != 1) started = 0;   /* spawners: concurrency 0 */
+  char cb = (char)conc;
+  *started = 1;
+  if (write(p2w, &cb, 1) != 1 || write(p4w, &cb, 1) != 1) *started = 0;   /* spawners: concurrency */
   reqbuf.n = 0;
-  if (started && !service(pid, 0, 20.0)) started = 0;
+  if (*started && !service(pid, 0, 20.0)) *started = 0;
+  return pid;
+}
+
+static void finish(pid_t pid) {
+  kill(pid, SIGTERM);
+  int status = 0; double t0 = nowf();
+  for (;;) {
+    pid_t w = waitpid(pid, &status, WNOHANG);
+    if (w == pid) break;
+    if (nowf() - t0 > 10.0) { kill(pid, SIGKILL); waitpid(pid, &status, 0); break; }
+    struct pollfd pf = { rd_clean, POLLIN, 0 };
+    if (poll(&pf, 1, 1) > 0 && (pf.revents & POLLIN)) { char ch; if (read(rd_clean, &ch, 1) == 1 && !ch) { if (write(wr_clean, "+", 1) != 1) {} } }
+  }
+  close(p2w); close(p4w); close(rd_clean); close(wr_clean);
+  for (int c = 0; c < 2; c++) if (lrd[c] >= 0) { close(lrd[c]); lrd[c] = -1; }
+  if (!(WIFEXITED(status) && (WEXITSTATUS(status) == 0 || WEXITSTATUS(status) == 111))) {
+    /* the daemon crashed (sanitizer report or signal): show it, the check treats stderr + exit code as an error */
+    fprintf(stderr, "c10_route: qmail-send child ended abnormally (status 0x%x)\n", status);
+    char cmd[4700]; snprintf(cmd, sizeof cmd, "cat %s/asan.* %s/log 1>&2 2>/dev/null", auto_qmail, auto_qmail);
+    if (system(cmd)) {}
+    fflush(h_out); exit(3);
+  }
+}
+
+static unsigned long next_id = 1000;
+
+static void inject(unsigned long id, const hbuf *todo) {
+  char path[4600];
+  snprintf(path, sizeof path, "%s/mess/%lu/%lu", qdir, id % auto_split, id); put_file(path, (unsigned char *)"x", 1);
+  snprintf(path, sizeof path, "%s/todo/%lu", qdir, id); put_file(path, todo->p, todo->n);
+  snprintf(path, sizeof path, "%s/lock/trigger", qdir);
+  int tf = open(path, O_WRONLY | O_NONBLOCK);
+  if (tf >= 0) { if (write(tf, "", 1) != 1) {} close(tf); }
+}
+
+static void do_S(const files *F0, step *st, int nst) {
+  char path[4600];
+  int started;
+  pid_t pid = launch(F0, 0, &started);
   fputs("S", h_out); out_files(F0); fprintf(h_out, " %d %d", started, started ? nst : 0);
   for (int k = 0; started && k < nst; k++) {
     step *s = &st[k];
     if (s->kind == 'M') {
       unsigned long id = next_id++;
-      snprintf(path, sizeof path, "%s/mess/%lu/%lu", qdir, id % auto_split, id); put_file(path, (unsigned char *)"x", 1);
-      snprintf(path, sizeof path, "%s/todo/%lu", qdir, id); put_file(path, s->todo.p, s->todo.n);
-      snprintf(path, sizeof path, "%s/lock/trigger", qdir);
-      int tf = open(path, O_WRONLY | O_NONBLOCK);
-      if (tf >= 0) { if (write(tf, "", 1) != 1) {} close(tf); }
+      inject(id, &s->todo);
       fputs(" M ", h_out); h_hex(s->todo.p, s->todo.n);
       int sv = service(pid, id, 20.0);
       if (!sv) { fputs(" ? ? ?", h_out); started = 0; break; }
@@ -304,23 +345,61 @@ static void do_S(const files *F0, step *st, int nst) {
     }
   }
   fputc('\n', h_out);
-  kill(pid, SIGTERM);
-  int status = 0; double t0 = nowf();
-  for (;;) {
-    pid_t w = waitpid(pid, &status, WNOHANG);
-    if (w == pid) break;
-    if (nowf() - t0 > 10.0) { kill(pid, SIGKILL); waitpid(pid, &status, 0); break; }
-    struct pollfd pf = { rd_clean, POLLIN, 0 };
-    if (poll(&pf, 1, 1) > 0 && (pf.revents & POLLIN)) { char ch; if (read(rd_clean, &ch, 1) == 1 && !ch) { if (write(wr_clean, "+", 1) != 1) {} } }
+  finish(pid);
+}
+
+/* one message through the real daemon with delivery enabled (both spawners announce concurrency 10): we are qmail-clean
+ * and both spawners; every delivery command qmail-send writes (del_start -> comm_write -> comm_do) is printed and answered
+ * with a success report.   D <5 files> <started> <todo> <id> { C <chan> <delnum> <fn> <sender> <recip> } */
+static void do_D(const files *F0, const hbuf *todo) {
+  int started;
+  pid_t pid = launch(F0, 10, &started);
+  unsigned long id = next_id++;
+  fputs("D", h_out); out_files(F0); fprintf(h_out, " %d ", started); h_hex(todo->p, todo->n); fprintf(h_out, " %lu", id);
+  if (started) {
+    static hbuf db[2];
+    int want = 0, got = 0, cleaned = 0;
+    { size_t b = 0; for (size_t i = 0; i < todo->n; i++) if (!todo->p[i]) { if (todo->p[b] == 'T') want++; b = i + 1; } }
+    hbuf_reset(&db[0]); hbuf_reset(&db[1]); reqbuf.n = 0;
+    inject(id, todo);
+    double t0 = nowf();
+    while ((got < want || !cleaned) && nowf() - t0 < 20.0) {
+      struct pollfd pf[3] = { { rd_clean, POLLIN, 0 }, { lrd[0], POLLIN, 0 }, { lrd[1], POLLIN, 0 } };
+      if (poll(pf, 3, 5) <= 0) continue;
+      if (pf[0].revents & POLLIN) {
+        char ch; if (read(rd_clean, &ch, 1) != 1) break;
+        badd(&reqbuf, &ch, 1);
+        if (!ch) {
+          char *rq = (char *)reqbuf.p, path[4600]; reqbuf.n = 0;
+          if (!strncmp(rq, "todo/", 5)) { snprintf(path, sizeof path, "%s/todo/%lu", qdir, strtoul(rq + 5, 0, 10)); unlink(path); cleaned = 1; }
+          else if (!strncmp(rq, "foop/", 5)) { unsigned long x = strtoul(rq + 5, 0, 10);
+            snprintf(path, sizeof path, "%s/mess/%lu/%lu", qdir, x % auto_split, x); unlink(path); }
+          if (write(wr_clean, "+", 1) != 1) break;
+        }
+      } else if (pf[0].revents) break;
+      for (int c = 0; c < 2; c++) if (pf[1 + c].revents & POLLIN) {
+        unsigned char buf[4096]; ssize_t r = read(lrd[c], buf, sizeof buf);
+        if (r <= 0) continue;
+        badd(&db[c], buf, r);
+        for (;;) {                                         /* complete commands: delnum fn NUL sender NUL recip NUL */
+          size_t e[3]; int k = 0;
+          for (size_t i = 1; i < db[c].n && k < 3; i++) if (!db[c].p[i]) e[k++] = i;
+          if (k < 3) break;
+          fprintf(h_out, " C %d %d ", c, db[c].p[0]);
+          h_hex(db[c].p + 1, e[0] - 1); fputc(' ', h_out);
+          h_hex(db[c].p + e[0] + 1, e[1] - e[0] - 1); fputc(' ', h_out);
+          h_hex(db[c].p + e[1] + 1, e[2] - e[1] - 1);
+          char rep[5] = { (char)db[c].p[0], 'K', 'o', 'k', 0 };
+          if (write(c ? p4w : p2w, rep, 5) != 5) {}
+          got++;
+          memmove(db[c].p, db[c].p + e[2] + 1, db[c].n - e[2] - 1); db[c].n -= e[2] + 1;
+        }
+      }
+    }
+    service(pid, 0, 20.0);                                 /* job closed, message removed (foop/ request), asleep again */
   }
-  close(p2[1]); close(p4[1]); close(p5[0]); close(p6[1]);
-  if (!(WIFEXITED(status) && (WEXITSTATUS(status) == 0 || WEXITSTATUS(status) == 111))) {
-    /* the daemon crashed (sanitizer report or signal): show it, the check treats stderr + exit code as an error */
-    fprintf(stderr, "c10_route: qmail-send child ended abnormally (status 0x%x)\n", status);
-    char cmd[4700]; snprintf(cmd, sizeof cmd, "cat %s/asan.* %s/log 1>&2 2>/dev/null", auto_qmail, auto_qmail);
-    if (system(cmd)) {}
-    fflush(h_out); exit(3);
-  }
+  fputc('\n', h_out);
+  finish(pid);
 }
 
 /* ------------------------------------------------------------------ generators */
@@ -563,6 +642,12 @@ static void stdin_mode(void) {
     else if (!strcmp(tok[0], "K") && nt >= 4) { int n = unhex(tok[1], a), m = unhex(tok[3], b); do_K(a, n, atoi(tok[2]), b, m); }
     else if (!strcmp(tok[0], "X") && nt >= 2) { int n = unhex(tok[1], a); do_X(a, n); }
     else if (!strcmp(tok[0], "B") && nt >= 3) { int n = unhex(tok[2], a); do_B(atoi(tok[1]), a, n); }
+    else if (!strcmp(tok[0], "D") && nt >= 8) {
+      static hbuf dt;
+      for (int i = 0; i < NF; i++) set_file(&SF, i, tok[1 + i]);
+      hbuf_reset(&dt); int n = unhex(tok[7], a); badd(&dt, a, n);
+      do_D(&SF, &dt);
+    }
     else if (!strcmp(tok[0], "S") && nt >= 6) {
       for (int i = 0; i < NF; i++) set_file(&SF, i, tok[1 + i]);
       int ns = 0, i = 6;
@@ -860,6 +945,31 @@ int main(int argc, char **argv) {
 #undef STEP_M
 #undef STEP_F
     do_S(&F, steps, ns);
+  }
+  amode = 0;
+
+  /* (13) seeded, own stream: one message each through the real daemon with deliveries enabled; the sender is a VERP
+   * sender most of the time; every delivery command written to the spawner pipes is reported */
+  h_seed(seed * 1000003ull + 17 * shard + 900007);
+  int ndscen = nscen / 16 + 2;
+  for (int c = 0; c < ndscen; c++) {
+    if ((c % nshards) != shard) continue;
+    amode = (c / nshards) & 1;
+    gen_files(&F, 1);
+    if (!F.present[0] && !F.present[2]) F.present[2] = 1;
+    static hbuf t; unsigned char rr[400]; char hd[200];
+    hbuf_reset(&t);
+    int n = snprintf(hd, sizeof hd, "u%u", h_below(70000)); badd(&t, hd, n + 1);
+    n = snprintf(hd, sizeof hd, "p%u", h_below(70000)); badd(&t, hd, n + 1);
+    n = snprintf(hd, sizeof hd, "F%s%s%s%s", h_below(4) ? "list-" : "", h_below(6) ? "@" : "", pick_dom(), h_below(5) ? "-@[]" : h_below(2) ? "-@[" : "");
+    badd(&t, hd, n + 1);
+    int nr = 1 + h_below(6);
+    for (int i = 0; i < nr; i++) {
+      size_t l = gen_recip(rr);
+      for (size_t j = 0; j < l; j++) if (!rr[j]) rr[j] = 'z';
+      badd(&t, "T", 1); badd(&t, rr, l); badd(&t, "", 1);
+    }
+    do_D(&F, &t);
   }
   amode = 0;
   fflush(h_out);
